@@ -40,7 +40,7 @@ SHARDS_QUICK = 4
 KEYS = ["A", "S", "S.X", "S.Y", "T.X", "L", "L.0", "L.1", "L.2", "S.X.Z"]
 STORED = U.SCALARS + [[], [1], [0, "a"], {}, {"X": 1}, "{B}", "x{B}y", "{S.Y}", "{T.X}{B}", "{Q}", ["{B}", 1], {"K": "{B}"}]
 DEFAULTS = [
-    ("none", None), ("const", 0), ("const", None), ("const", ""), ("const", [1]), ("const", "dflt"),
+    ("none", None), ("const", 0), ("const", None), ("const", ""), ("const", [1]), ("const", "dflt"), ("const", []), ("const", {}), ("const", [[], {"k": []}]),
     ("tmpl", "{B}"), ("tmpl", "t{S.Y}"), ("factory", False), ("factory", {"X": 2}),
     ("spec", {"k": "opt", "key": "B", "dk": "spec", "dv": {"k": "opt", "key": "C", "dk": "const", "dv": "chain-end"}}),
     ("spec", {"k": "ds", "id": "1"}),
@@ -156,8 +156,21 @@ def option_history(ctx, key, dk, dv, dom, r):
         except RecursionError:
             continue
         op = r.choice(["evaluate", "evaluate", "validate"])
+        holder = []
+
+        def call(oo, op=op, holder=holder):
+            v = getattr(G.root, op)(oo)
+            holder.append(v)
+            return v
+
         with labrea.cache.disabled():
-            got = observe(getattr(G.root, op), copy.deepcopy(o))
+            got = observe(call, copy.deepcopy(o))
+        if holder and op == "evaluate":
+            # the caller owns what it was given: editing it must not reach the Option's default or a later result
+            from ..hostile import scribble
+
+            scribble(holder[0])
+            ctx.count("option_history_results_scribbled")
         ctx.evaluations += 1
         ctx.count("option_history_steps")
         raw = U.lookup(key, o)
